@@ -85,13 +85,16 @@ def _decide_in_normal_forms(pid, tier, root, rep):
         return
     tried = []
     mods, helpers, funcs = _relevant(bad, root)
-    for form in FORMS[1:]:
+    attempts = [(form, helpers) for form in FORMS[1:]]
+    if 1 < len(helpers) <= 8:   # expanding one helper at a time: another helper of the same function may be one a rule anchors on
+        attempts += [('helpers', frozenset({h})) for h in sorted(helpers)]
+    for form, hs in attempts:
         try:
-            repf, modelf = _run_rules(pid, tier, root, form, only_modules=mods, helpers=helpers, only_functions=funcs)
+            repf, modelf = _run_rules(pid, tier, root, form, only_modules=mods, helpers=hs, only_functions=funcs)
         except Exception as e:    # AnalysisError, or a rule that cannot find its anchor in this form: the form proves nothing
             tried.append(f'{form} (not analysable: {type(e).__name__})')
             continue
-        tried.append(form)
+        tried.append(form if hs is helpers else f'{form}[{",".join(sorted(hs))}]')
         for o in bad:
             if not o.ok and _excused(o, repf, modelf):
                 o.ok = True
